@@ -140,3 +140,37 @@ class KeyTheory:
             val = m.eval(v, model_completion=True)
             out[n] = val.as_long()
         return True, out
+
+
+class FastChecker:
+    """one incremental z3 solver per process: key variables and their domain constraints are asserted once,
+    each path condition is checked between push/pop"""
+
+    def __init__(self, domain):
+        self.domain = domain
+        self.rng = KeyTheory.domain_ranges(domain)
+        self.solver = z3.Solver()
+        self.vars = {}
+        self.checks = 0
+
+    def var(self, n):
+        v = self.vars.get(n)
+        if v is None:
+            v = z3.Int('key_' + n)
+            self.vars[n] = v
+            self.solver.add(z3.Or([z3.And(v >= lo, v <= hi) for lo, hi in self.rng]))
+        return v
+
+    def sat(self, trace):
+        lits = []
+        for a, b, d in trace:
+            x = self.var(a) if isinstance(a, str) else z3.IntVal(a)
+            y = self.var(b) if isinstance(b, str) else z3.IntVal(b)
+            lits.append(x == y if d else x != y)
+        self.solver.push()
+        try:
+            self.solver.add(*lits)
+            self.checks += 1
+            return self.solver.check() == z3.sat
+        finally:
+            self.solver.pop()
